@@ -379,7 +379,7 @@ def run(ck, repo: Repo, tier: str):
 
 _E, _P, _R = "rl_blox/blox/probabilistic_ensemble.py", "rl_blox/algorithm/pets.py", "rl_blox/algorithm/pets_reward_models.py"
 MUTANTS = [
-    {"id": "c17-tsinf-scalar-noise", "file": "rl_blox/algorithm/pets.py", "rule": "R1", "edits": [("        delta_obs = dist.sample(seed=sampling_key)[0]", "        noise = jax.random.normal(sampling_key)\n        delta_obs = dist.mean()[0] + dist.stddev()[0] * noise")], "accept_error": True},
+    {"id": "c17-tsinf-scalar-noise", "file": "rl_blox/algorithm/pets.py", "rule": "R1", "edits": [("        dist = dynamics_model.base_distribution(\n", "        mean, var = dynamics_model.base_predict(\n"), ("        delta_obs = dist.sample(seed=sampling_key)[0]", "        noise = jax.random.normal(sampling_key, dtype=mean.dtype)\n        delta_obs = mean[0] + jnp.sqrt(var[0]) * noise")]},
     {"id": "c17-resize-batches", "file": "rl_blox/blox/probabilistic_ensemble.py", "rule": "R4", "find": "        batched_indices = shuffled_indices.reshape(\n            model.n_ensemble, batch_size, -1\n        ).transpose([2, 0, 1])", "replace": "        batched_indices = jnp.resize(shuffled_indices, (model.n_ensemble, shuffled_indices.shape[1] // batch_size, batch_size)).transpose([1, 0, 2])"},
     {"id": "c17-base-predict-double-vmap", "file": _E, "rule": "R1", "nth": 0, "find": "        log_var_i = self._safe_log_var_i(\n            log_var_i, self.min_log_var, self.max_log_var\n        )\n        return mean_i, jnp.exp(log_var_i)", "replace": "        log_var_i = self._safe_log_var(\n            log_var_i, self.min_log_var, self.max_log_var\n        )\n        return mean_i, jnp.exp(log_var_i)"},
     {"id": "c17-tsinf-vector-query", "file": _P, "rule": "R1", "find": "            jnp.hstack((obs, act))[jnp.newaxis], model_idx", "replace": "            jnp.hstack((obs, act)), model_idx"},
@@ -403,6 +403,7 @@ MUTANTS = [
     {"id": "c17-pendulum-no-clip", "file": _R, "rule": "R6", "find": "    act = jnp.clip(act, -PENDULUM_MAX_TORQUE, PENDULUM_MAX_TORQUE)[..., 0]", "replace": "    act = act[..., 0]"},
 ]
 BENIGN = [
+    {"id": "c17-b-tsinf-reparam", "file": "rl_blox/algorithm/pets.py", "edits": [("        dist = dynamics_model.base_distribution(\n", "        mean, var = dynamics_model.base_predict(\n"), ("        delta_obs = dist.sample(seed=sampling_key)[0]", "        noise = jax.random.normal(sampling_key, mean[0].shape, dtype=mean.dtype)\n        delta_obs = mean[0] + jnp.sqrt(var[0]) * noise")]},
     # bounding the (E,N,O) ensemble output with the single-vmap wrapper broadcasts (N,O) against (O,): same values, same shapes
     {"id": "c17-b-call-single-vmap", "file": _E, "nth": 0, "find": "        log_vars = self._safe_log_var(\n            log_vars, self.min_log_var, self.max_log_var\n        )\n\n        return means, log_vars", "replace": "        log_vars = self._safe_log_var_i(\n            log_vars, self.min_log_var, self.max_log_var\n        )\n\n        return means, log_vars"},
     {"id": "c17-b-aggregate-commuted", "file": _E, "find": "        return mean, aleatoric_var + epistemic_var", "replace": "        return mean, epistemic_var + aleatoric_var"},
